@@ -135,6 +135,9 @@ type Exec struct {
 
 	// happens-before fingerprints (explore strategies "hb" and "dbc"); nil unless TrackHB
 	hb *hbState
+
+	// Last is the id of the thread that made the previous step (-1 before the first)
+	Last int
 }
 
 var ex *Exec // nil => passthrough
@@ -367,6 +370,7 @@ func (e *Exec) caseReady(c Case, t *thread) bool {
 
 func (e *Exec) loop() {
 	cur := -1
+	e.Last = -1
 	for {
 		flushed := false
 		for _, t := range e.threads {
@@ -449,6 +453,7 @@ func (e *Exec) loop() {
 		}
 		e.Steps++
 		cur = t.id
+		e.Last = cur
 		if e.Panic != nil {
 			return
 		}
